@@ -51,6 +51,8 @@ class Alias(object):
                 return self.self_(f[1]) or self.elems(f[1])
             if f[0] == 'name' and f[1] == 'next' and t[2]:
                 return self.elems(t[2][0])
+            if f[0] == 'name' and f[1] == 'vars' and len(t[2]) == 1:
+                return self.self_(t[2][0])      # the attribute dictionary of an object is the object
             return False
         return False
 
@@ -113,6 +115,9 @@ def mutations(fn, tainted, self_is_helper=False, elems_only=(), calls_out=None):
                     tgt, what = f[1], 'mutating method .%s(%s)' % (f[2], ', '.join(show(a)[:20] for a in e[1][2]))
                 elif f in (N('setattr'), N('delattr')) and e[1][2]:
                     tgt, what = e[1][2][0], 'setattr()'
+                elif f[0] == 'attr' and f[2] in ('__setattr__', '__delattr__', '__setitem__', '__delitem__') and e[1][2]:
+                    # object.__setattr__(x, ..) / x.__setattr__(..): the way round a frozen dataclass
+                    tgt, what = (e[1][2][0] if f[1] in (N('object'), N('dict'), N('list')) else f[1]), '%s()' % f[2]
             if tgt is None:
                 continue
             if al.self_(tgt):
